@@ -130,7 +130,10 @@ fn report_reject(ev: &mut Ev, src: &Source, packaging: &str, t: &Tables, c: &Cer
 /// continuation line is certified with the locals it starts with as its entry locals) and every
 /// process's trace is replayed against the annotations and through the Lean `stepInstr`.
 fn system_tie(cx: &mut Ctx, ev: &mut Ev, src: &Source, lines: &[String]) {
-    let run = match run_session_traced(lines, &cx.b, 1500) {
+    // 1–3 workers, chosen from the source text (deterministic)
+    let n_workers = 1 + (lines.iter().map(|l| l.len()).sum::<usize>() % 3);
+    ev.hit(&format!("system-run:workers={n_workers}"));
+    let run = match run_session_traced_on(lines, &cx.b, 1500, n_workers) {
         Err(why) => {
             ev.hit(&format!("system-run:skipped:{}", why.split(':').next().unwrap_or("?")));
             return;
